@@ -87,6 +87,8 @@ type FuncContract struct {
 	SendAssert []*Clause // assertions at every send site in this function (bound var e)
 	Terminates   []string // tags of the termination obligations (structural: range loops only)
 	TerminatesOn bool
+	GuardedReads   []string // tags: every READ of a guarded field (or of a map / slice held in one) needs the guarding mutex (C16, reader side)
+	GuardedReadsOn bool
 	SiteGhosts []*SiteGhost // ghost assignments executed at map-update sites selected by static map type
 	Walkrels   []*Clause // two-state relations over ghost state satisfied by every call of this callback; must be reflexive and transitive
 	Walkpost   *WalkPost // the function is a tree-walk callback: per-entry postcondition used to summarise the walk
@@ -166,6 +168,7 @@ type ContractFile struct {
 	LockInvs []*LockInv
 	Guarded []*GuardedBy
 	LockCtx map[string][]string // function name -> implicit precondition source
+	LockReaders map[string]map[string]bool // "Struct.mutex" -> functions that only read what it guards
 	Pkg         string
 	Ghosts      []GhostDecl
 	OnSends     []*OnSend
@@ -181,7 +184,7 @@ type ContractFile struct {
 var directiveKw = map[string]bool{
 	"ghost": true, "on": true, "pred": true, "spec": true, "func": true, "requires": true, "ensures": true,
 	"modifies": true, "let": true, "safety": true, "loop": true, "assume": true, "lemma": true,
-	"extern": true, "axiom": true, "canary": true, "callassert": true, "siteassert": true, "cut": true, "guarded_by": true, "lockinv": true, "lockctx": true, "trusted": true, "sendassert": true, "terminates": true, "walkpost": true, "walkrel": true, "siteghost": true,
+	"extern": true, "axiom": true, "canary": true, "callassert": true, "siteassert": true, "cut": true, "guarded_by": true, "lockinv": true, "lockctx": true, "trusted": true, "sendassert": true, "terminates": true, "guardedreads": true, "lockreaders": true, "walkpost": true, "walkrel": true, "siteghost": true,
 }
 
 var tagRe = regexp.MustCompile(`^\[([A-Za-z0-9_,! ]*)\]\s*`)
@@ -440,6 +443,26 @@ func parseContractFile(path, pkg string, cf *ContractFile) error {
 			c.Name = fmt.Sprintf("lockinv(%s.%s)", m[1], m[2])
 			cf.LockInvs = append(cf.LockInvs, &LockInv{Struct: m[1], Mutex: m[2], Var: m[4], C: c})
 			cur = nil
+		case "lockreaders":
+			// lockreaders Struct.mutexField: f1, f2, ...  -- the listed functions only READ the fields the mutex guards; every other
+			// function under contract that takes the mutex belongs to the single writer thread: for it nothing changes at Lock
+			k := strings.Index(rest, ":")
+			if k < 0 {
+				return fail(fmt.Errorf("bad lockreaders"))
+			}
+			key := strings.TrimSpace(rest[:k])
+			if cf.LockReaders == nil {
+				cf.LockReaders = map[string]map[string]bool{}
+			}
+			if cf.LockReaders[key] == nil {
+				cf.LockReaders[key] = map[string]bool{}
+			}
+			for _, f := range strings.Split(rest[k+1:], ",") {
+				if f = strings.TrimSpace(f); f != "" {
+					cf.LockReaders[key][pkg+"#"+f] = true
+				}
+			}
+			cur = nil
 		case "lockctx":
 			// lockctx [tags] EXPR : f1, f2, ...   -- every listed function gets the implicit precondition EXPR
 			k := strings.LastIndex(rest, " : ")
@@ -627,6 +650,13 @@ func parseContractFile(path, pkg string, cf *ContractFile) error {
 			}
 			cur.Terminates, _ = parseTags(rest)
 			cur.TerminatesOn = true
+		case "guardedreads":
+			// guardedreads [tags]: in this function every read of a field listed in a guarded_by declaration needs the mutex
+			if cur == nil {
+				return fail(fmt.Errorf("guardedreads outside func"))
+			}
+			cur.GuardedReads, _ = parseTags(rest)
+			cur.GuardedReadsOn = true
 		case "trusted":
 			if cur == nil {
 				return fail(fmt.Errorf("trusted outside func"))
